@@ -42,6 +42,11 @@ Tolerances from measured deviations (40 000 wrapper rows, 20 000 block rows, 6 0
 entry (largest seen 1.3e-12); `cylsegH` 1e-9 of max(|value|, M/4pi) (largest seen 1.5e-11, case ids 213/215/233/235); wrapper rows 1e-10 of the
 polarization scale (largest seen 3e-13) except observers in the bore at 1e-3 outer radii from the axis of a segment without bore: 1e-8 (largest seen
 5.8e-10 — cancellation in the real formulas amplifies the last-digit differences of the elliptic integrals); ellipkinc/ellipeinc 1e-13 (2.3e-15), el3_angle 1e-10 (3e-16).
+Kind `exccancel` (C05 / C02, corr/exccancel_rows.py; not in the default cycle, run with only=["exccancel"]): for every wrapper kind in turn (dipole, dipole at its own position = the `r == 0` row against Kern.bhjmDipoleAtPosition, sphere, cuboid, triangle, tetra, trimesh row, circle, polyline segment
+wrapper, cylinder, cylseg) ONE real call on a batch of six rows with common geometry and observer: excitation p, -p, p*0.0 (signed zeros), q, a*p + b*q, p + (-p);
+p, q with no / one / two / all components exactly 0, q cancelling the transversal or the axial part of p; every row against the port on that row alone
+(tolerances of the base kinds; `poly seg` = Kern.bhjmSegment, `trimesh batch` = Kern.bhjmTrimesh).  Statistics `exccancel`: rows per wrapper and per pattern, and on the
+real results the linearity / antisymmetry residuals and whether F(0) is exactly 0.
 Kinds `l1cuboid`, `l1sphere`, `l1cylinder`, `l1tetra`, `l1cylseg` (C02, keyword `in_out`): the same inputs, but the real function is reached the way
 getBH_level2 reaches it — through `getBH_level1(field_func=…, in_out=io, position=0, orientation=identity, …)` with io in 'auto' / 'inside' /
 'outside' / a misspelt value — against `Kern.cuboidL1 … cylSegL1` (Model/InOut.lean: level1's keyword filter over the regenerated table of
@@ -53,6 +58,7 @@ import numpy as np
 from vlib.driver import run_driver
 
 from . import cylseg_rows
+from . import exccancel_rows
 
 CYLSEG_KINDS = ["cylsegcase", "cylsegblock", "cylsegH", "cylseg", "cylsegH", "cylseg", "cylsegblock", "cylseg", "cylsegell", "cylsegel3", "cylsegatan"]
 
@@ -166,9 +172,12 @@ def run_stream(ctx, n, only=None, with_in_out=False):
 
     rng = ctx.rng
     lines, expect, meta = [], [], []
+    exc_i = None
+    exc_stats = {"batches": 0, "rows": 0, "rows_excitation_exactly_zero": 0, "rows_p_and_minus_p": 0, "by_wrapper": {}, "by_pattern": {},
+                 "real_max_linearity_residual": {}, "real_max_antisymmetry_residual": {}, "real_zero_rows_not_exactly_zero": 0}
     for i in range(n):
         nps = np.random.default_rng(rng.randrange(2**31))
-        kinds = only or (["dipole", "sphere", "segment", "cuboidmask", "cuboid", "triangle", "tetra", "circle", "tetrainside", "cel0", "celiter", "cylinder", "cylmask", "cylinder", "celbatch", "el3batch", "cylbatch"]  # cylinder twice: twelve observer strata x six polarization kinds
+        kinds = only or (["dipole", "sphere", "segment", "cuboidmask", "cuboid", "triangle", "tetra", "circle", "tetrainside", "cel0", "celiter", "cylinder", "cylmask", "cylinder", "celbatch", "el3batch", "cylbatch"]  # (kind `exccancel` only on request, only=["exccancel"]: the default cycle and its random sequence are unchanged) cylinder twice: twelve observer strata x six polarization kinds
                          + (["l1cuboid", "l1tetra", "l1sphere", "l1cylinder", "l1tetra", "l1cylseg"] if with_in_out else []))  # C02: the keyword in_out through getBH_level1
         kind = kinds[i % len(kinds)]
         sc = 10.0 ** nps.uniform(-3, 3)
@@ -182,6 +191,29 @@ def run_stream(ctx, n, only=None, with_in_out=False):
             lines.append(ln)
             expect.append(ex)
             meta.append(m)
+            continue
+        if kind == "exccancel":  # one batch of six rows per wrapper kind: p, -p, signed zeros, q, a p + b q, +0 (corr/exccancel_rows.py)
+            exc_i = rng.randrange(len(exccancel_rows.WRAPPERS)) if exc_i is None else exc_i + 1
+            wrapper = exccancel_rows.WRAPPERS[exc_i % len(exccancel_rows.WRAPPERS)]
+            rows_, res_ = exccancel_rows.case(rng, nps, wrapper, mu_0, bits, enc, stratified_point, cylinder_case)
+            for ln, ex, m in rows_:
+                lines.append(ln)
+                expect.append(ex)
+                meta.append(m)
+            if rows_:
+                exc_stats["batches"] += 1
+                exc_stats["by_wrapper"][wrapper] = exc_stats["by_wrapper"].get(wrapper, 0) + 6
+                how = rows_[0][2]["how"]
+                for key in ("p:" + how["p"], "q:" + how["q"], "rel:" + how["rel"]):
+                    exc_stats["by_pattern"][key] = exc_stats["by_pattern"].get(key, 0) + 1
+                exc_stats["rows"] += 6
+                exc_stats["rows_excitation_exactly_zero"] += 2
+                exc_stats["rows_p_and_minus_p"] += 2
+                rs = exccancel_rows.residuals(*res_)
+                if rs:
+                    exc_stats["real_max_linearity_residual"][wrapper] = max(exc_stats["real_max_linearity_residual"].get(wrapper, 0.0), rs[0])
+                    exc_stats["real_max_antisymmetry_residual"][wrapper] = max(exc_stats["real_max_antisymmetry_residual"].get(wrapper, 0.0), rs[1])
+                    exc_stats["real_zero_rows_not_exactly_zero"] += not rs[2]
             continue
         f = rng.choice("BHJM")
         if kind == "dipole":
@@ -576,6 +608,7 @@ def run_stream(ctx, n, only=None, with_in_out=False):
                           "max_reldiff_model_axial_only": 0.0, "strata": {}},
              "el3batch": {"batches": 0, "entries": 0, "sizes_below_10": 0, "sizes_from_10": 0, "el30_raised_ValueError": 0, "real_alone_ne_batch": 0,
                           "nan_entries": 0, "max_reldiff": 0.0}}
+    stats["exccancel"] = exc_stats
     samples = []
     for ln, o, (typ, exp, scale), m in zip(lines, out, expect, meta):
         pk_ = ("l1" if m.get("l1") else "") + m["kind"]
@@ -629,7 +662,7 @@ def run_stream(ctx, n, only=None, with_in_out=False):
                 ctx.broken.append({"kind": "correspondence", "name": "kern:el3batch-rowwise", "detail": {"meta": m}})
         if m["kind"] == "triangle":
             stats["triangle_strata"][m["stratum"]] = stats["triangle_strata"].get(m["stratum"], 0) + 1
-        elif "stratum" in m and not m["kind"].startswith("cylseg"):
+        elif "stratum" in m and not m["kind"].startswith("cylseg") and m["kind"] != "exccancel":
             for key in (m["stratum"], "pol:" + m["pol"] if "pol" in m else "mask-row"):
                 stats["cylinder_strata"][key] = stats["cylinder_strata"].get(key, 0) + 1
         if m["kind"].startswith("cylseg"):
@@ -707,7 +740,7 @@ def run_stream(ctx, n, only=None, with_in_out=False):
                 ok = False
             else:
                 both_nan = np.isnan(got) & np.isnan(exp)
-                tol = (1e-3 if m.get("stratum") == "near-edge-line" else 1e-12) if m["kind"] in ("triangle", "tetra") else 1e-12 if m["kind"] in ("cel0", "celiter", "el3batch") else 1e-15 if m["kind"] == "celbatch" else 1e-9 if m["kind"] == "cylinder" else (1e-14 if m.get("axial_only") else 1e-10) if m["kind"] == "cylbatch" else 1e-10  # triangle sheets (repaired edge integral): same operations in the same order, agreement to a few ulp; only within 1e-12..1e-4 edge lengths of an edge line the cancellation in solid_angle (N, D of the arctan2) amplifies the different summation order of einsum; cylinder: scipy ellipk/ellipe vs their cel0 forms
+                tol = m["tol"] if "tol" in m else (1e-3 if m.get("stratum") == "near-edge-line" else 1e-12) if m["kind"] in ("triangle", "tetra") else 1e-12 if m["kind"] in ("cel0", "celiter", "el3batch") else 1e-15 if m["kind"] == "celbatch" else 1e-9 if m["kind"] == "cylinder" else (1e-14 if m.get("axial_only") else 1e-10) if m["kind"] == "cylbatch" else 1e-10  # triangle sheets (repaired edge integral): same operations in the same order, agreement to a few ulp; only within 1e-12..1e-4 edge lengths of an edge line the cancellation in solid_angle (N, D of the arctan2) amplifies the different summation order of einsum; cylinder: scipy ellipk/ellipe vs their cel0 forms
                 if m["kind"] == "cylinder" and np.shape(got) == np.shape(exp) and not np.any(both_nan):
                     with np.errstate(all="ignore"):
                         rd = np.abs(got - exp) / np.maximum(np.maximum(np.abs(got), np.abs(exp)), scale)
